@@ -5,6 +5,7 @@
    same node kinds, nesting, names, values, levels, attributes, flags), with positional template
    parameters named 1, 2, 3 ... in order. *)
 From MW Require Import PyBase Nodes Builder Flatten BuilderProofs.
+From MW Require Import HeadingFrag HeadingFragProofs.
 
 Theorem C03_build_flatten_partial : forall c, wf_code c -> build (fl_code c) = Ok c.
 Proof. exact build_flatten_lemma. Qed.
@@ -22,3 +23,10 @@ Example C03_example :
   = Ok [NTemplate [NText [116%N]] [([NText [49%N]], [NText [97%N]], false); ([NText [107%N]], [NText [118%N]], true);
                                    ([NText [50%N]], [NText [98%N]], false)]].
 Proof. vm_compute. reflexivity. Qed.
+
+(* the heading fragment of the tokenizer (coq/HeadingFrag.v, tied to both tokenizers by tools/headfrag.py):
+   every heading the model recognises has a level between 1 and 6, for every string and depth limit *)
+Theorem C03_fragment_heading_levels : forall md s, levels_ok (join_lines md (lines s)).
+Proof. exact frag_levels. Qed.
+
+Print Assumptions C03_fragment_heading_levels.
